@@ -231,6 +231,8 @@ type PKI struct {
 	keyID  map[string]int
 	fpID   map[string]int
 	keyPub map[int]interface{}
+
+	SPKIFP map[int][]byte // key id -> SHA-256 of the raw SubjectPublicKeyInfo (Certificate.SPKIFingerprint)
 }
 
 // Parse returns a fresh parse of certificate i (a distinct *x509.Certificate with the same bytes).
@@ -244,7 +246,7 @@ func (p *PKI) Parse(i int) *x509.Certificate {
 
 // Build creates, parses and abstracts the universe.
 func Build(specs []CertSpec) (*PKI, error) {
-	p := &PKI{Specs: specs, nameID: map[string]int{}, keyID: map[string]int{}, fpID: map[string]int{}, keyPub: map[int]interface{}{}}
+	p := &PKI{Specs: specs, nameID: map[string]int{}, keyID: map[string]int{}, fpID: map[string]int{}, keyPub: map[int]interface{}{}, SPKIFP: map[int][]byte{}}
 	for i, s := range specs {
 		der, err := MakeDER(s)
 		if err != nil {
@@ -273,6 +275,7 @@ func Build(specs []CertSpec) (*PKI, error) {
 			return nil, err
 		}
 		p.keyPub[specs[i].Key] = c.PublicKey
+		p.SPKIFP[specs[i].Key] = c.SPKIFingerprint
 	}
 	for i, c := range p.Certs {
 		if err := bind(p.nameID, c.RawIssuer, specs[i].Iss, "issuer"); err != nil {
@@ -314,6 +317,16 @@ func Build(specs []CertSpec) (*PKI, error) {
 		p.VBy = append(p.VBy, v)
 	}
 	return p, nil
+}
+
+// KeyIDs returns the key ids that occur as subject keys, sorted.
+func (p *PKI) KeyIDs() []int {
+	var ks []int
+	for k := range p.keyPub {
+		ks = append(ks, k)
+	}
+	sort.Ints(ks)
+	return ks
 }
 
 // NameOf / KeyOf / FPOf translate implementation bytes to abstract ids (-1 = unknown).
